@@ -218,12 +218,25 @@ def anchor_coverage(pid, tier):
 	import tempfile
 	tmp = tempfile.mkdtemp(prefix='gverif-anchors-', dir=os.environ.get('TMPDIR') or '/dev/shm')      # whatever the cut-short slice leaves behind goes with it
 	try:
-		r = subprocess.run([sys.executable, '-m', 'mc.anchors', pid, tier, str(budget)], capture_output=True, text=True, timeout=budget * 2 + 10,
-		                   env=dict(os.environ, TMPDIR=tmp))
-		for line in r.stdout.splitlines():
-			if line.startswith('ANCHORS '):
-				return json.loads(line[8:])
-		return dict(status='unavailable', detail=(r.stderr or '')[-300:])
+		# output through a file, own session: pool workers forked by the traced slice may outlive it and would keep a pipe open
+		outp = os.path.join(tmp, 'anchors.out')
+		with open(outp, 'w') as fo:
+			proc = subprocess.Popen([sys.executable, '-m', 'mc.anchors', pid, tier, str(budget)], stdout=fo, stderr=subprocess.DEVNULL,
+			                        env=dict(os.environ, TMPDIR=tmp), start_new_session=True)
+			try:
+				proc.wait(timeout=budget * 2 + 10)
+			except subprocess.TimeoutExpired:
+				pass
+			finally:
+				try:
+					os.killpg(proc.pid, 9)
+				except OSError:
+					pass
+		with open(outp) as fi:
+			for line in fi.read().splitlines():
+				if line.startswith('ANCHORS '):
+					return json.loads(line[8:])
+		return dict(status='unavailable', detail='no report within the time limit')
 	except Exception as e:
 		return dict(status='unavailable', detail=repr(e)[:300])
 	finally:
